@@ -37,6 +37,8 @@ from rustfun_tr import Translator  # noqa: E402
 FILES = ["src/bytes.rs", "src/raw/mod.rs", "src/raw/crc32.rs", "src/raw/node.rs", "src/automaton/mod.rs", "src/raw/ops.rs"]
 PINNED_PATH = os.path.join(HERE, "srcfuns_pinned.v")
 LAST_DECLS = {}
+LAST_SIGS = {}
+LAST_RESTRUCT = {}
 
 ANY_POS = [("start", "node.start", "usize"), ("v", "self.0", "u8"), ("sizes", "node.sizes", "PackSizes"),
            ("ntrans", "node.ntrans", "usize"), ("version", "node.version", "u64")]
@@ -163,6 +165,29 @@ def split_pinned_decls(txt):
     return {m.group(1): m.group(0).rstrip("\n") for m in re.finditer(r"^Inductive (src_\w+)[^\n]*\n(?:  \|[^\n]*\n?)+", txt, re.M)}
 
 
+def struct_sigs(files):
+    """field names and types of the structs whose methods are translated: a changed representation of the private
+    state makes its methods AND the helpers they call not comparable function by function"""
+    owners = sorted(set(t[2] for t in TARGETS if t[2]))
+    out = {}
+    for o in owners:
+        for f, ix in files.items():
+            if o in ix.records:
+                out[o] = "{" + ", ".join("%s: %s" % (k, " ".join(str(x[1]) if x[0] != "num" else str(x[1][0]) for x in v)) for k, v in ix.records[o].items()) + "}"
+                break
+            if o in ix.tuples:
+                out[o] = "(" + ", ".join(" ".join(str(x[1]) for x in ft) for ft in ix.tuples[o][1]) + ")"
+                break
+            if o in ix.enums:
+                out[o] = "enum " + " | ".join(v[0] for v in ix.enums[o][1])
+                break
+    return out
+
+
+def pinned_struct_sigs(txt):
+    return dict(re.findall(r"^\(\* STRUCT (\w+) = (.*?) \*\)$", txt, re.M))
+
+
 def deps_of(text, names):
     body = text.split(":=", 1)[1]
     return [n for n in names if re.search(r"\b%s\b" % re.escape(n), body)]
@@ -223,6 +248,27 @@ def generate(repo, root, use_pinned_for=(), pin=False):
             status[n] = status.get(n, "fallback_to_pinned: not reached in the current source")
             if not status[n].startswith("fallback"):
                 status[n] = "fallback_to_pinned: " + status[n]
+    # structs whose fields changed: their methods and everything those call fall back together
+    csigs = struct_sigs(files)
+    psigs = {} if pin or not os.path.exists(PINNED_PATH) else pinned_struct_sigs(open(PINNED_PATH).read())
+    restruct = {}
+    for o, sg in psigs.items():
+        if o in csigs and csigs[o] != sg:
+            cluster = set(n for n in texts if n.startswith("src_fn_%s_" % o))
+            todo = list(cluster)
+            while todo:
+                n = todo.pop()
+                for d in deps_of(texts[n], list(texts)):
+                    if d not in cluster:
+                        cluster.add(d)
+                        todo.append(d)
+            for n in sorted(cluster):
+                if n in pinned and texts[n].strip() != pinned[n][1].strip():
+                    texts[n], types[n] = pinned[n][1], pinned[n][0]
+                    status[n] = "fallback_to_pinned: the fields of struct %s changed (%s -> %s): its methods and their helpers are not comparable one by one" % (o, sg, csigs[o])
+                    restruct.setdefault(o, []).append(n)
+    global LAST_SIGS, LAST_RESTRUCT
+    LAST_SIGS, LAST_RESTRUCT = csigs, restruct
     # enums: the declarations of the pinned revision are always present; when the source's enum differs from the
     # pinned one, every function that mentions it falls back (pinned and current constructors cannot be mixed)
     pdecls = {} if pin or not os.path.exists(PINNED_PATH) else split_pinned_decls(open(PINNED_PATH).read())
@@ -294,7 +340,7 @@ def generate(repo, root, use_pinned_for=(), pin=False):
         body.append("(* %s *)" % status.get(n, "translated").replace("(*", "( *").replace("*)", "* )"))
         body.append(texts[n])
         body.append("")
-    report = {"overflow_checks": ovf, "debug_assertions": dbg,
+    report = {"restructured": restruct, "overflow_checks": ovf, "debug_assertions": dbg,
               "functions": {n: {"status": status[n].split(":")[0], "reason": status[n].partition(": ")[2], "type": types[n],
                                 "target": n in pref} for n in order},
               "translated": [n for n in order if status[n].startswith("translated")],
@@ -321,6 +367,7 @@ def main():
             sys.exit(1)
         open(PINNED_PATH, "w").write("(* pinned translation of the pinned revision of /repo (tools/rustfun.py --pin); fragments per function,\n"
                                      "   used as fallback text when a function cannot be located or translated *)\n\n" +
+                                     "\n".join("(* STRUCT %s = %s *)" % kv for kv in sorted(LAST_SIGS.items())) + "\n\n" +
                                      "\n\n".join([LAST_DECLS[dn] for dn in sorted(LAST_DECLS)] + [texts[n] for n in order]) + "\n")
     os.makedirs(os.path.dirname(out), exist_ok=True)
     if not os.path.exists(out) or open(out).read() != txt:
